@@ -42,6 +42,9 @@ int verif_vad_rate;   /* sample rate reported by the (assumed) VAD */
  * harness (harness/C01_wordarcs.c, which defines SSW_WORDARC before including this file) gives them a meaning */
 #ifndef SSW_WORDARC
 #define VERIF_PT_PRE(child) ((void)0)
+#define VERIF_PT_ENTER() ((void)0)
+#define VERIF_PP_PRE(gn, pnode) ((void)0)
+#define VERIF_PP_POST(pnode, thresh, pth, wth) ((void)0)
 #define VERIF_PT_POST(child, hmm, thresh, nf) ((void)0)
 #define VERIF_WT_ROOTS(d) ((void)0)
 #define VERIF_WT_PRE(root, e, bpidx) ((void)0)
